@@ -15,7 +15,7 @@ def genC16Stmt (nested : Bool) : G Stmt := do
     let mut parts : List Part := []
     let mut usedC : List String := []
     for _ in [0:nc] do
-      let sfx ← liftG (pick ["", "1", "2"])
+      let sfx ← liftG (pick ["", "1", "2", "11", "21"])
       let e ← if (← liftG (chance 3 10)) then
           pure (Expr.comb (← liftG (pick ops3)) (.leaf (← genText)) (.leaf (← genText)))
         else pure (Expr.leaf (← genText))
@@ -23,7 +23,7 @@ def genC16Stmt (nested : Bool) : G Stmt := do
       parts := .ann { sym := cs, sfx := if sfx = "" then none else some sfx.toList, anno := anno.map String.toList } true e :: parts
       usedC := sfx :: usedC
     for _ in [0:np] do
-      let sfx ← liftG (pick ["", "1", "2", "3"])
+      let sfx ← liftG (pick ["", "1", "2", "3", "11", "21", "12"])
       let h : Hdr := { sym := ps, sfx := if sfx = "" then none else some sfx.toList }
       let r ← liftG (below 10)
       if r < 5 then
